@@ -4,6 +4,7 @@ import (
 	"bytes"
 	"fmt"
 	"math/rand"
+	"reflect"
 
 	"github.com/iotaledger/hive.go/ds"
 	"github.com/iotaledger/hive.go/ds/serializableorderedmap"
@@ -19,8 +20,63 @@ type dsKey2 struct {
 	B bool   `serix:"b"`
 }
 
+type dsInner struct {
+	A uint8  `serix:"a"`
+	B uint32 `serix:"b"`
+}
+
+// dsComp: a struct holding a non-byte slice, a pointer and a map (nothing Decode overwrites wholesale).
+type dsComp struct {
+	L []uint16        `serix:"l,lenPrefix=uint8"`
+	P *dsInner        `serix:"p,optional"`
+	M map[uint8]uint8 `serix:"m,lenPrefix=uint8"`
+	S string          `serix:"s"`
+}
+
+// dsArrKey: comparable composite key with an array of non-byte elements.
+type dsArrKey struct {
+	A [2]uint16 `serix:"a,lenPrefix=uint8"`
+	B [3]byte   `serix:"b"`
+}
+
+func genU16s(r *rand.Rand) []uint16 {
+	l := make([]uint16, r.Intn(5))
+	for i := range l {
+		l[i] = uint16(r.Intn(1000))
+	}
+	return l
+}
+
+func genU8Map(r *rand.Rand) map[uint8]uint8 {
+	m := map[uint8]uint8{}
+	for i, n := 0, r.Intn(4); i < n; i++ {
+		m[uint8(r.Intn(256))] = uint8(r.Intn(256))
+	}
+	return m
+}
+
+func genComp(r *rand.Rand) dsComp {
+	c := dsComp{L: genU16s(r), M: genU8Map(r), S: string(randBytes(r, r.Intn(6)))}
+	if r.Intn(3) != 0 {
+		c.P = &dsInner{uint8(r.Intn(256)), r.Uint32()}
+	}
+	return c
+}
+
 func dsAPI() *serix.API {
 	api := serix.NewAPI()
+	if err := api.RegisterTypeSettings([]uint16{}, serix.TypeSettings{}.WithLengthPrefixType(serix.LengthPrefixTypeAsUint16)); err != nil {
+		panic(err)
+	}
+	if err := api.RegisterTypeSettings(map[uint8]uint8{}, serix.TypeSettings{}.WithLengthPrefixType(serix.LengthPrefixTypeAsByte)); err != nil {
+		panic(err)
+	}
+	if err := api.RegisterTypeSettings([]dsComp{}, serix.TypeSettings{}.WithLengthPrefixType(serix.LengthPrefixTypeAsByte)); err != nil {
+		panic(err)
+	}
+	if err := api.RegisterTypeSettings([2]uint16{}, serix.TypeSettings{}.WithLengthPrefixType(serix.LengthPrefixTypeAsByte)); err != nil {
+		panic(err)
+	}
 	if err := api.RegisterTypeSettings("", serix.TypeSettings{}.WithLengthPrefixType(serix.LengthPrefixTypeAsUint16)); err != nil {
 		panic(err)
 	}
@@ -33,7 +89,7 @@ func dsAPI() *serix.API {
 func setCase[T comparable](st *stats, name string, seed int64, gen func(r *rand.Rand) T) {
 	rng := rand.New(rand.NewSource(seed))
 	api := dsAPI()
-	n := []int{0, 1, 2, 5, 40}[rng.Intn(5)]
+	n := []int{0, 1, 2, 3, 5, 6, 40}[rng.Intn(7)]
 	s := ds.NewSet[T]()
 	var order []T
 	for i := 0; i < n; i++ {
@@ -58,9 +114,16 @@ func setCase[T comparable](st *stats, name string, seed int64, gen func(r *rand.
 	}
 	st.count("ds_roundtrips", 1)
 	st.count("evaluations", 1)
+	st.dist("ds_instances", "set-"+name)
+	if len(order) >= 2 {
+		st.count("ds_roundtrips_with_two_or_more_entries", 1)
+	}
+	b0 := append([]byte{}, b...)
 	s2 := ds.NewSet[T]()
 	k, err := s2.Decode(api, b)
 	switch {
+	case err == nil && !bytes.Equal(b, b0):
+		fail("decode-mutated-input", "Decode changed the bytes it was given")
 	case err != nil:
 		fail("decode-error", "Encode produced %d bytes, Decode failed: %v", len(b), err)
 	case k != len(b):
@@ -71,14 +134,31 @@ func setCase[T comparable](st *stats, name string, seed int64, gen func(r *rand.
 		b2, err := s2.Encode(api)
 		if err != nil || !bytes.Equal(b, b2) {
 			fail("reencode-differs", "re-encoding the decoded set gives other bytes (%v)", err)
+			return
+		}
+		// destination that already holds elements: every element of the wire must be present afterwards
+		s3 := ds.NewSet[T]()
+		for i := 0; i < 1+rng.Intn(3); i++ {
+			s3.Add(gen(rng))
+		}
+		st.count("ds_dirty_destination_decodes", 1)
+		if _, err := s3.Decode(api, b); err != nil {
+			fail("dirty-decode-error", "Decode into a set that already holds elements failed: %v", err)
+			return
+		}
+		for _, e := range order {
+			if !s3.Has(e) {
+				fail("dirty-mismatch", "after decoding into a set that already holds elements an element of the wire is missing")
+				return
+			}
 		}
 	}
 }
 
-func somCase[K comparable, V comparable](st *stats, name string, seed int64, genK func(r *rand.Rand) K, genV func(r *rand.Rand) V) {
+func somCase[K comparable, V any](st *stats, name string, seed int64, genK func(r *rand.Rand) K, genV func(r *rand.Rand) V) {
 	rng := rand.New(rand.NewSource(seed))
 	api := dsAPI()
-	n := []int{0, 1, 2, 5, 40}[rng.Intn(5)]
+	n := []int{0, 1, 2, 3, 4, 6, 40}[rng.Intn(7)]
 	m := serializableorderedmap.New[K, V]()
 	for i := 0; i < n; i++ {
 		m.Set(genK(rng), genV(rng))
@@ -99,17 +179,30 @@ func somCase[K comparable, V comparable](st *stats, name string, seed int64, gen
 	}
 	st.count("ds_roundtrips", 1)
 	st.count("evaluations", 1)
+	st.dist("ds_instances", "som-"+name)
+	if m.Size() >= 2 {
+		st.count("ds_roundtrips_with_two_or_more_entries", 1)
+	}
+	if b1, err := m.Encode(api); err != nil || !bytes.Equal(b, b1) {
+		fail("nondeterministic", "encoding the same map twice gave other bytes (%v)", err)
+		return
+	}
+	b0 := append([]byte{}, b...)
 	m2 := serializableorderedmap.New[K, V]()
 	k, err := m2.Decode(api, b)
 	if err != nil {
 		fail("decode-error", "Encode produced %d bytes, Decode failed: %v", len(b), err)
 		return
 	}
+	if !bytes.Equal(b, b0) {
+		fail("decode-mutated-input", "Decode changed the bytes it was given")
+		return
+	}
 	if k != len(b) {
 		fail("bytes-read", "Decode reported %d bytes, Encode produced %d", k, len(b))
 		return
 	}
-	// same entries in the same order
+	// same entries in the same order (deep comparison: values may be slices, maps, structs, pointers)
 	type kv struct {
 		k K
 		v V
@@ -122,8 +215,30 @@ func somCase[K comparable, V comparable](st *stats, name string, seed int64, gen
 		return
 	}
 	for i := range l1 {
-		if l1[i] != l2[i] {
-			fail("value-mismatch", "entry %d differs after the round trip", i)
+		if l1[i].k != l2[i].k || !reflect.DeepEqual(l1[i].v, l2[i].v) {
+			fail("value-mismatch", "entry %d of %d differs after the round trip", i, len(l1))
+			return
+		}
+	}
+	if b2, err := m2.Encode(api); err != nil || !bytes.Equal(b, b2) {
+		fail("reencode-differs", "re-encoding the decoded map gives other bytes (%v)", err)
+		return
+	}
+	// destination that already holds entries: every entry the wire carries must arrive intact
+	// (what happens to the other pre-existing entries is not demanded)
+	m3 := serializableorderedmap.New[K, V]()
+	for i := 0; i < 1+rng.Intn(3); i++ {
+		m3.Set(genK(rng), genV(rng))
+	}
+	st.count("ds_dirty_destination_decodes", 1)
+	if _, err := m3.Decode(api, b); err != nil {
+		fail("dirty-decode-error", "Decode into a map that already holds entries failed: %v", err)
+		return
+	}
+	for i := range l1 {
+		got, ok := m3.Get(l1[i].k)
+		if !ok || !reflect.DeepEqual(got, l1[i].v) {
+			fail("dirty-mismatch", "after decoding into a map that already holds entries, entry %d of the wire is missing or differs", i)
 			return
 		}
 	}
@@ -144,12 +259,33 @@ func dsCase(st *stats, name string, seed int64) {
 		somCase(st, "uint16-string", seed, func(r *rand.Rand) uint16 { return uint16(bnd(r, 16)) }, str)
 	case "som-string-int64":
 		somCase(st, "string-int64", seed, str, func(r *rand.Rand) int64 { return int64(bnd(r, 64)) })
+	case "som-uint32-[]uint16":
+		somCase(st, "uint32-[]uint16", seed, func(r *rand.Rand) uint32 { return uint32(r.Intn(50)) }, genU16s)
+	case "som-string-struct":
+		somCase(st, "string-struct", seed, str, genComp)
+	case "som-[4]byte-*struct":
+		somCase(st, "[4]byte-*struct", seed, func(r *rand.Rand) (a [4]byte) { r.Read(a[:1]); return }, func(r *rand.Rand) *dsInner { return &dsInner{uint8(r.Intn(256)), r.Uint32()} })
+	case "som-struct-map":
+		somCase(st, "struct-map", seed, func(r *rand.Rand) dsKey2 { return dsKey2{uint16(r.Intn(8)), r.Intn(2) == 0} }, genU8Map)
+	case "som-arraykey-[]struct":
+		somCase(st, "arraykey-[]struct", seed, func(r *rand.Rand) dsArrKey { return dsArrKey{[2]uint16{uint16(r.Intn(3)), uint16(r.Intn(3))}, [3]byte{byte(r.Intn(2))}} },
+			func(r *rand.Rand) []dsComp {
+				l := make([]dsComp, r.Intn(3))
+				for i := range l {
+					l[i] = genComp(r)
+				}
+				return l
+			})
+	case "set-arraykey":
+		setCase(st, "arraykey", seed, func(r *rand.Rand) dsArrKey { return dsArrKey{[2]uint16{uint16(bnd(r, 16)), uint16(r.Intn(3))}, [3]byte{byte(r.Intn(4)), 1, 2}} })
+	case "set-[2]uint16":
+		setCase(st, "[2]uint16", seed, func(r *rand.Rand) [2]uint16 { return [2]uint16{uint16(r.Intn(5)), uint16(bnd(r, 16))} })
 	case "som-struct-[4]byte":
 		somCase(st, "struct-[4]byte", seed, func(r *rand.Rand) dsKey2 { return dsKey2{uint16(r.Intn(4)), r.Intn(2) == 0} }, func(r *rand.Rand) (a [4]byte) { r.Read(a[:]); return })
 	}
 }
 
-var dsNames = []string{"set-uint32", "set-string", "set-[32]byte", "set-struct", "som-uint16-string", "som-string-int64", "som-struct-[4]byte"}
+var dsNames = []string{"som-uint32-[]uint16", "som-string-struct", "som-[4]byte-*struct", "som-struct-map", "som-arraykey-[]struct", "set-arraykey", "set-[2]uint16", "set-uint32", "set-string", "set-[32]byte", "set-struct", "som-uint16-string", "som-string-int64", "som-struct-[4]byte"}
 
 func runDS(c *vf.Ctx, a *agg) {
 	base := c.Rand("ds").Int63()
